@@ -96,6 +96,9 @@ def reset_globals(bus_order=None, keep_semaphores=False):
     """process-global state that must not survive an execution"""
     boot()
     S._global_eventbus_lock = None
+    if hasattr(S, '_inline_processing_root_lock'):
+        S._inline_processing_root_lock = None
+        S._inline_processing_root_lock_loop = None
     S.EventBus.all_instances = OrderedWeakSet(bus_order)
     if not keep_semaphores:
         H.GLOBAL_RETRY_SEMAPHORES.clear()
